@@ -487,6 +487,7 @@ class Project:
         self.spawns = 0
         self.set_cfg({})
         self.probe_cache = {}
+        self.residues = []
 
     def set_cfg(self, fl):
         c = config_toml(self.depth0, fl.get("rg"), bool(fl.get("ff_cfg")), bool(fl.get("wae_cfg")), bool(fl.get("ns")))
@@ -500,10 +501,20 @@ class Project:
 
     def noise(self):
         """what earlier runs of the tool leave in a project: the fallback state directory (cache, history) and the
-        temporary file of a save that was killed; none of it is a project entry (fix D53)"""
+        temporary file of a save that was killed; none of it is a project entry (fix D53). The temporary file is
+        produced by really killing a `check --update-baseline` between the creation of its temporary file and the
+        rename (hook SGV_CRASH_AT), so its name is whatever the implementation uses; a second one carries the
+        documented name .<target>.tmp.<pid>. The baseline file itself is not touched by the killed run."""
         self.sb.write(".sloc-guard/cache.json", "{}")
         self.sb.write(".sloc-guard/history.json", "{}")
         self.sb.write("." + BASELINE_FILE + ".tmp.4242", "{")
+        before = set(os.listdir(self.sb.proj))
+        disk = read_disk(self.sb.proj)
+        self.spawns += 1
+        rc, out, err = self.sb.run(self.exe, cli_args({"u": "a"}), env={"RAYON_NUM_THREADS": "1", "SGV_CRASH_AT": "aw:after_create_temp"})
+        left = sorted(set(os.listdir(self.sb.proj)) - before)
+        self.residue = {"exit": rc, "left": left, "baseline_intact": read_disk(self.sb.proj) == disk}
+        self.residues.append(self.residue)
         self.probe_cache = {}
 
     def raw(self, fl, files=None, threads=1, root=None):
@@ -627,8 +638,11 @@ def replay_history(exe, hist, depth0=False, auto_rerun=True):
     """hist: list of ops. Returns (records, spawns). Each record has 'op_index'."""
     pj = Project(exe, depth0)
     recs = []
+    between = []        # the ops since the previous run
     try:
         for i, op in enumerate(hist):
+            if op["op"] != "check" and op["op"] != "update":
+                between.append(op["op"])
             if op["op"] == "edit":
                 pj.edit(op["state"])
                 continue
@@ -650,6 +664,8 @@ def replay_history(exe, hist, depth0=False, auto_rerun=True):
                 rec = pj.run(op["flags"], op.get("files"), op.get("threads", 1), op.get("root"))
             rec["op_index"] = i
             rec["op"] = op
+            rec["between"], between = between, []
+            rec["residues"] = list(pj.residues)
             recs.append(rec)
             # C10 fixpoint: rerun an auto-ratchet run once on the same state
             fl = rec["flags"]
@@ -660,6 +676,8 @@ def replay_history(exe, hist, depth0=False, auto_rerun=True):
                 again = pj.run(fl2, rec["files"], rec["threads"], rec.get("root"))
                 again["op_index"] = i
                 again["op"] = op
+                again["between"] = []
+                again["residues"] = list(pj.residues)
                 again["rerun_of_auto"] = True
                 recs.append(again)
         return recs, pj.spawns
@@ -769,6 +787,8 @@ def rand_history(rng, maxlen=10):
             h.append(o)
         elif r < 0.53:
             h.append({"op": "respell"})
+        elif r < 0.58:
+            h.append({"op": "noise"})        # a killed update leaves its temporary file behind: not a project change
         else:
             prev = [o for o in h if o["op"] == "edit"][-1]["state"]
             files = rand_files(rng, prev) if rng.random() < 0.3 else None
@@ -778,6 +798,59 @@ def rand_history(rng, maxlen=10):
             if rng.random() < 0.08:
                 o["flags"]["ns"] = True
             h.append(o)
+    return h
+
+
+def grown_history(rng):
+    """Recorded files whose size changes after the baseline was written (mostly growing) while new, unrecorded violators
+    appear; then fail-fast runs with the baseline under one worker, the changed recorded files in front: a recorded path is
+    known debt whatever its current size, so it must neither stop the run nor be reported failed. Also the round trip
+    at the limit of the root directory with the residue of a killed update lying around."""
+    n = 5
+    while True:
+        st0 = [rng.choice("ooOuw-") for _ in range(n)]
+        over = [i for i, c in enumerate(st0) if c in "oO"]
+        rest = [i for i, c in enumerate(st0) if c not in "oO"]
+        if over and rest:
+            break
+    h = [{"op": "edit", "state": "".join(st0)}]
+    if rng.random() < 0.3:
+        h.append({"op": "noise"})
+    h.append({"op": "update", "mode": rng.choice("aac"), "we": False})
+    st1 = list(st0)
+    changed = [i for i in over if rng.random() < 0.8] or [over[0]]
+    for i in changed:
+        st1[i] = "O" if st0[i] == "o" else "o"
+    new = rng.sample(rest, rng.randint(1, min(2, len(rest))))
+    for i in new:
+        st1[i] = rng.choice("oO")
+    h.append({"op": "edit", "state": "".join(st1)})
+    if rng.random() < 0.3:
+        h.append({"op": "noise"})
+    present = [i for i, c in enumerate(st1) if c != "-"]
+    for _ in range(rng.randint(1, 3)):
+        fl = {"b": True, rng.choice(["ff", "ff", "ff_cfg"]): True}
+        if rng.random() < 0.25:
+            fl[rng.choice(["rc", "rg"])] = rng.choice("was")
+        if rng.random() < 0.15:
+            fl["wae"] = True
+        mode = rng.random()
+        if mode < 0.55:
+            # the changed recorded files first, then the new ones, then the rest
+            front = list(changed)
+            rng.shuffle(front)
+            tail = [i for i in present if i not in front]
+            rng.shuffle(tail)
+            files = [UFILES[i] if rng.random() < 0.7 else UFILES[i][2:] for i in front + tail]
+        elif mode < 0.8:
+            order = list(present)
+            rng.shuffle(order)
+            files = [UFILES[i] for i in order]
+        else:
+            files = None
+        h.append({"op": "check", "flags": fl, "files": files, "threads": rng.choice([1, 1, 1, 4])})
+    if rng.random() < 0.5:
+        h.append({"op": "check", "flags": {"b": True}, "files": None})
     return h
 
 
@@ -814,9 +887,10 @@ def absent_keys(rec):
 
 
 def evaluated_keys(rec):
-    """Paths the run evaluated: every path with a result, the directories counted by the structure block,
+    """Paths the run evaluated: every file whose lines were counted (a content result; a structure result at the path
+    of a file says nothing about its line count, fix D85), the directories counted by the structure block,
     and - for a directory scan - paths that no longer exist under the scanned root."""
-    ev = {norm_key(r["path"]) for r in rec["rp"]} | set(rec["dirs"])
+    ev = {norm_key(r["path"]) for r in rec["rp"] if r["kind"] in ("n", "c")} | set(rec["dirs"])
     if rec["files"] is None:
         ev |= absent_keys(rec)
     return ev
@@ -847,6 +921,12 @@ def ff_trigger(rec, fixed):
     if d0 is not None:
         return lambda r: r["status"] == "F" and norm_key(r["path"]) not in d0
     return lambda r: r["status"] == "F"
+
+
+def unchanged_since(prev, rec):
+    """the run [rec] follows the run [prev] on the unchanged project: nothing happened in between but the tool's own
+    residue appearing (the state directory, the temporary file of a killed save), which is not a project change"""
+    return prev["state"] == rec["state"] and all(o == "noise" for o in rec.get("between", ["?"]))
 
 
 def oracles_c09(rec, prev, fixed):
@@ -904,7 +984,7 @@ def oracles_c09(rec, prev, fixed):
                 klass = "K09_modes_drop_other_kind" if loaded is not None else "K09_update_unloaded"
                 out.append(("C09", klass, "modes_preserve_other_kind: %s entries %s -> %s under --update-baseline %s" % (other, sorted(a), sorted(b), UM[u])))
         # idempotence: same mode, same state, previous op was that update
-        if prev is not None and prev["flags"].get("u") == u and prev["state"] == rec["state"] and prev["op_index"] == rec["op_index"] - 1 \
+        if prev is not None and prev["flags"].get("u") == u and unchanged_since(prev, rec) \
                 and prev["files"] is None and rec["files"] is None and prev.get("root") == rec.get("root") \
                 and not (fl.get("rc") or fl.get("rg")) and prev["exit"] != 2 and not fl.get("ns") and not prev["flags"].get("ns"):
             if (d1 or {}) != (d0 or {}):
@@ -939,7 +1019,7 @@ def oracles_c09(rec, prev, fixed):
         if stray:
             out.append(("C09", None, "history_inv: key %s written without a failing result" % stray[0]))
     # (a) round trip
-    if prev is not None and prev["flags"].get("u") == "a" and prev["state"] == rec["state"] and prev["op_index"] == rec["op_index"] - 1 \
+    if prev is not None and prev["flags"].get("u") == "a" and unchanged_since(prev, rec) \
             and fl.get("b") and not u and not is_ff(fl) and rec["files"] is None and prev["files"] is None and prev["exit"] != 2 \
             and not rec.get("root") and not fl.get("ns") and not prev["flags"].get("ns") and not prev.get("root"):
         notg = [o for o in rec["obs"] if o["kind"] in BASELINABLE and o["status"] == "F"]
